@@ -54,7 +54,8 @@ Record rules := mkrules {
   r_arity_check : bool;
   r_ctp : list ctp_cond;
   r_dispatch_retry : list retry_class;
-  r_dwc_retry : list retry_class }.
+  r_dwc_retry : list retry_class;
+  r_attr_nullcheck : bool }.   (* Attribute_Access::do_call passes the object pointer through throw_if_null *)
 
 (* ------------------------------------------------------------------------------------------ *)
 (** * Types, boxes, received values *)
@@ -481,7 +482,7 @@ Definition call_one (R : rules) (E : env) (f : func) (args : list box) : outcome
         match f_params f, args with
         | [p], [a] =>
             match boxed_cast R E (mkparam (p_ti p) (if b_const a then FCPtr else FPtr) 0) a with
-            | COk r => if r_isnull r then fail ECrash else enter E f [r]
+            | COk r => if r_isnull r then (if r_attr_nullcheck R then fail ENull else fail ECrash) else enter E f [r]
             | CErr e => fail e
             end
         | _, _ => fail ECrash
@@ -914,7 +915,8 @@ Definition rules_ok (R : rules) : bool :=
   forallb (form_rule_ok R) inner_forms
   && r_arity_check R
   && forallb (fun c => match c with RcBadCast | RcArity | RcGuard => true | _ => false end) (r_dispatch_retry R)
-  && forallb (fun c => match c with RcBadCast | RcArity | RcGuard => true | _ => false end) (r_dwc_retry R).
+  && forallb (fun c => match c with RcBadCast | RcArity | RcGuard => true | _ => false end) (r_dwc_retry R)
+  && r_attr_nullcheck R.
 
 (* the conversion table does not mention the catch-all types nor the function type, and converts between
    distinct types *)
